@@ -89,6 +89,51 @@ pub(crate) fn cmd_encode(args: &str, packet_text: &str) -> Result<String, String
     }
 }
 
+/// `padsubs=<n>x<len>`: a SUBSCRIBE gets <n> more subscriptions (QoS 1), an UNSUBSCRIBE <n> more topic filters, each filter
+/// <len> bytes of 'a' - packets of 4 GiB and more cannot travel as text
+fn apply_padsubs(packet: &mut MqttPacket, kv: &Kv) -> Result<(), String> {
+    if let Some(spec) = get(kv, "padsubs") {
+        let (n, len) = spec.split_once('x').ok_or("bad padsubs")?;
+        let n: usize = n.parse().map_err(|_| "bad padsubs")?;
+        let len: usize = len.parse().map_err(|_| "bad padsubs")?;
+        match packet {
+            MqttPacket::Subscribe(subscribe) => {
+                for _ in 0..n {
+                    subscribe.subscriptions.push(Subscription::builder("a".repeat(len), QualityOfService::AtLeastOnce).build());
+                }
+            }
+            MqttPacket::Unsubscribe(unsubscribe) => {
+                for _ in 0..n {
+                    unsubscribe.topic_filters.push("a".repeat(len));
+                }
+            }
+            _ => {}
+        }
+    }
+    Ok(())
+}
+
+/// `encode.head v=5 [padsubs=<n>x<len>] | <packet>` -> `res=ok hdr=<hex>` (the fixed header: first byte and remaining length) | `res=err:<kind>`
+pub(crate) fn cmd_encode_head(args: &str, packet_text: &str) -> Result<String, String> {
+    let (_, kv) = split_kv(args);
+    let mut packet = parse_packet(packet_text)?;
+    apply_padsubs(&mut packet, &kv)?;
+    let context = EncodingContext { outbound_alias_resolution: resolution_of(&kv)?, protocol_version: version_of(&kv)? };
+    let mut encoder = Encoder::new();
+    if let Err(e) = encoder.reset(&packet, &context) {
+        return Ok(format!("res=err:{}", error_kind(&e)));
+    }
+    let mut dest: Vec<u8> = Vec::with_capacity(64);
+    match encoder.encode(&packet, &mut dest) {
+        Ok(_) => {
+            let mut end = 1;
+            while end < dest.len() && end < 5 && dest[end] & 0x80 != 0 { end += 1; }
+            Ok(format!("res=ok hdr={}", hex(&dest[..usize::min(end + 1, dest.len())])))
+        }
+        Err(e) => Ok(format!("res=err:{}", error_kind(&e))),
+    }
+}
+
 /// `decode v=5 max=0 chunks=x..,x..` -> `res=ok n=2 | <packet> | <packet>`
 pub(crate) fn cmd_decode(args: &str) -> Result<String, String> {
     let (_, kv) = split_kv(args);
@@ -155,6 +200,7 @@ pub(crate) fn cmd_validate_outbound_internal(args: &str, packet_text: &str) -> R
             publish.payload = Some(vec![0u8; n]);
         }
     }
+    apply_padsubs(&mut packet, &kv)?;
     let settings = settings_of(&kv)?;
     let mut connect_builder = ConnectOptions::builder();
     if let Some(sei) = get_num::<u32>(&kv, "csei")? {
